@@ -130,15 +130,21 @@ def run_matrix(tier, seed, report):
             name = "serial-10x12"
             te, tr = lists[name]
             for fault in FAULTS:
-                with quiet():
-                    a = SLc.bilform_matrix(te, tr)          # fresh (or recomputed)
-                files = [f for f in os.listdir(cdir) if f.startswith("SL_")]
-                ok_store = len(files) >= 1
-                with quiet():
-                    b = SLc.bilform_matrix(te, tr)          # warm
+                try:
+                    with quiet():
+                        a = SLc.bilform_matrix(te, tr)          # fresh (or recomputed)
+                    files = [f for f in os.listdir(cdir) if f.startswith("SL_")]
+                    ok_store = len(files) >= 1
+                    with quiet():
+                        b = SLc.bilform_matrix(te, tr)          # warm
+                    ok_fw, det_fw = same(a, refs[name]) and same(b, refs[name]) and ok_store, dict(files=files)
+                except BaseException as e:                      # e.g. the damaged file of the previous class is still there
+                    ok_fw, det_fw = False, dict(raised=repr(e))
+                    for f in os.listdir(cdir):
+                        os.unlink(os.path.join(cdir, f))
+                    files = []
                 n_eval += 2
-                report("matrix/cache/fresh+warm/{}/pw={}".format(fault, pw), same(a, refs[name]) and same(b, refs[name]) and ok_store,
-                       dict(files=files))
+                report("matrix/cache/fresh+warm/{}/pw={}".format(fault, pw), ok_fw, det_fw)
                 for f in files:
                     damage(os.path.join(cdir, f), fault)
                 try:
@@ -204,11 +210,19 @@ def run_vector(tier, seed, report):
         with quiet():
             Mc = InitialOperator(mesh, u0, initial_mesh=UnitSquareBoundaryRefined, cache_dir=tmp)
         for fault in (FAULTS if tier == "thorough" else ["missing", "empty", "half", "garbage"]):
-            with quiet():
-                a = Mc.linform_vector(elems)
-                b = Mc.linform_vector(elems)
-            files = [f for f in os.listdir(tmp) if f.startswith("M0_")]
-            report("vector/cache/fresh+warm/{}".format(fault), same(a, ref) and same(b, ref) and len(files) >= 1, dict(files=files))
+            try:
+                with quiet():
+                    a = Mc.linform_vector(elems)
+                    b = Mc.linform_vector(elems)
+                files = [f for f in os.listdir(tmp) if f.startswith("M0_")]
+                ok_fw, det_fw = same(a, ref) and same(b, ref) and len(files) >= 1, dict(files=files)
+            except BaseException as e:
+                ok_fw, det_fw = False, dict(raised=repr(e))
+                for f in os.listdir(tmp):
+                    if f.startswith("M0_"):
+                        os.unlink(os.path.join(tmp, f))
+                files = []
+            report("vector/cache/fresh+warm/{}".format(fault), ok_fw, det_fw)
             for f in files:
                 damage(os.path.join(tmp, f), fault)
             try:
